@@ -279,15 +279,15 @@ PowNum(x, y) ==
     ELSE LET p == RPowNat(x, -y.n) IN IF IsOpen(p) THEN Open ELSE RDiv(Whole(1), p)
 OpPow(a, b) == NumBin(a, b, PowNum)
 
-OpNeg(a) == IF a.t = "err" THEN a ELSE IF a.t \in {"open", "arr"} THEN Open
+OpNeg(a) == IF a.t \in {"err", "anyerr"} THEN a ELSE IF a.t \in {"open", "arr"} THEN Open
             ELSE LET x == ToNum(a) IN IF x.t \in {"err", "open"} THEN x ELSE RNeg(x)
-OpPct(a) == IF a.t = "err" THEN a ELSE IF a.t \in {"open", "arr"} THEN Open
+OpPct(a) == IF a.t \in {"err", "anyerr"} THEN a ELSE IF a.t \in {"open", "arr"} THEN Open
             ELSE LET x == ToNum(a) IN IF x.t \in {"err", "open"} THEN x ELSE RDiv(x, Whole(100))
 
 OpConcat(a, b) ==
     IF a.t = "open" THEN Open
-    ELSE IF a.t = "err" THEN a
-    ELSE IF b.t = "err" THEN b
+    ELSE IF a.t \in {"err", "anyerr"} THEN a
+    ELSE IF b.t \in {"err", "anyerr"} THEN b
     ELSE IF a.t = "arr" \/ b.t \in {"open", "arr"} THEN Open
     ELSE LET x == ToText(a)  y == ToText(b) IN
          IF x.t = "open" \/ y.t = "open" THEN Open ELSE Txt(x.v \o y.v)
@@ -336,8 +336,8 @@ CmpHolds(op, c) == CASE op = "="  -> c = 0  [] op = "<>" -> c # 0 [] op = "<"  -
 
 OpCmp(op, a, b) ==
     IF a.t = "open" THEN Open
-    ELSE IF a.t = "err" THEN a
-    ELSE IF b.t = "err" THEN b
+    ELSE IF a.t \in {"err", "anyerr"} THEN a
+    ELSE IF b.t \in {"err", "anyerr"} THEN b
     ELSE IF ~IsScalar(a) \/ ~IsScalar(b) THEN Open
     ELSE LET c == Cmp3(a, b)
              blankInvolved == a.t = "blank" \/ b.t = "blank"
